@@ -85,8 +85,8 @@ Definition set_bits (y : ty) (bs : list valued) : ty :=
 (** ** val/format.go *)
 Definition list_flag := 1024.
 Definition fmt_single (f : Z) : Z := f mod list_flag.           (* Format.Single *)
-Definition fmt_is_list (f : Z) : bool := list_flag <=? f.       (* Format.IsList: f|1024 == f *)
-Definition fmt_list (f : Z) : Z := if fmt_is_list f then f else f + list_flag.   (* Format.List *)
+Definition fmt_list (f : Z) : Z := Z.lor f list_flag.            (* Format.List: f | fmtListFlag *)
+Definition fmt_is_list (f : Z) : bool := fmt_list f =? f.         (* Format.IsList: f.List() == f *)
 
 Definition FmtBits := 2.  Definition FmtDecimal64 := 4.  Definition FmtEnum := 6.
 Definition FmtIdentityRef := 7.  Definition FmtLeafRef := 13.  Definition FmtString := 14.
@@ -439,44 +439,48 @@ Definition ctx_list (c : ctx) := snd (fst c).
 Definition add_list (is_list : bool) (y : ty) : ty :=
   if is_list then set_format y (fmt_list (t_format y)) else y.
 
-Definition post (E : env) (mi : nat) (c : ctx) (y : ty) : outcome ty :=
-  let self := ctx_self c in
-  let is_list := ctx_list c in
-  let is_leaf := snd c in
-  (* leafref: path required, resolved from the leaf; delegate = the target's type *)
-  bind (if fmt_single (t_format y) =? FmtLeafRef then
-          if is_nil (t_path y) then Err 2
-          else match find_path (e_tree E) (is_leaf || Nat.eqb mi 0)
-                                 (* an absolute path starts at RootModule: for a typedef the module
-                                    it is written in; the data tree is module 0's *)
-                                 self (t_path y) with
-               | None => Err 3
-               | Some TCont => Panic                       (* resolvedMeta.(HasType) *)
-               | Some (TLeaf tl tp y0) =>
-                   match base_format (chain_fuel (e_mods E) tp) (e_mods E) tp (t_ident y0) with
-                   | Some f => Ok (set_target y (Some (if tl then fmt_list f else f)))
-                   | None => Err 1
-                   end
-               end
-        else Ok (set_target y None))
-  (fun y =>
-  (* identityref: bases looked up from the module of the leaf unless taken over from the typedef *)
-  bind (if (t_format y =? FmtIdentityRef) && is_nil (t_idents y) then
-          match resolve_idents (e_mods E) mi (t_bases y) with
-          | Some ids => Ok (set_idents y ids)
-          | None => Err 4
-          end
-        else Ok y)
-  (fun y =>
-  let y := add_list is_list y in
-  bind (if fmt_single (t_format y) =? FmtUnion then
-          if is_nil (t_members y) then Err 5
-          else Ok (set_members y (map (add_list is_list) (t_members y)))
-        else if is_nil (t_members y) then Ok y else Err 6)
-  (fun y =>
+(* leafref: path required, resolved from the leaf; delegate = the target's type *)
+Definition post_leafref (E : env) (mi : nat) (c : ctx) (y : ty) : outcome ty :=
+  if fmt_single (t_format y) =? FmtLeafRef then
+    if is_nil (t_path y) then Err 2
+    else match find_path (e_tree E) (snd c || Nat.eqb mi 0)
+                         (* an absolute path starts at RootModule: for a typedef the module it is
+                            written in; the data tree is module 0's *)
+                         (ctx_self c) (t_path y) with
+         | None => Err 3
+         | Some TCont => Panic                       (* resolvedMeta.(HasType) *)
+         | Some (TLeaf tl tp y0) =>
+             match base_format (chain_fuel (e_mods E) tp) (e_mods E) tp (t_ident y0) with
+             | Some f => Ok (set_target y (Some (if tl then fmt_list f else f)))
+             | None => Err 1
+             end
+         end
+  else Ok (set_target y None).
+
+(* identityref: bases looked up from the module of the leaf unless taken over from the typedef *)
+Definition post_ident (E : env) (mi : nat) (y : ty) : outcome ty :=
+  if (t_format y =? FmtIdentityRef) && is_nil (t_idents y) then
+    match resolve_idents (e_mods E) mi (t_bases y) with
+    | Some ids => Ok (set_idents y ids)
+    | None => Err 4
+    end
+  else Ok y.
+
+Definition post_union (is_list : bool) (y : ty) : outcome ty :=
+  if fmt_single (t_format y) =? FmtUnion then
+    if is_nil (t_members y) then Err 5
+    else Ok (set_members y (map (add_list is_list) (t_members y)))
+  else if is_nil (t_members y) then Ok y else Err 6.
+
+Definition post_values (y : ty) : ty :=
   let y := if fmt_single (t_format y) =? FmtEnum then set_enums y (assign (t_enums y)) else y in
-  let y := if fmt_single (t_format y) =? FmtBits then set_bits y (assign (t_bits y)) else y in
-  Ok y))).
+  if fmt_single (t_format y) =? FmtBits then set_bits y (assign (t_bits y)) else y.
+
+Definition post (E : env) (mi : nat) (c : ctx) (y : ty) : outcome ty :=
+  bind (post_leafref E mi c y) (fun y =>
+  bind (post_ident E mi y) (fun y =>
+  bind (post_union (ctx_list c) (add_list (ctx_list c) y)) (fun y =>
+  Ok (post_values y)))).
 
 (** ** Stage 2: compile the chain bottom-up.  Every statement carries the module it was written in:
     findModuleAndIsExternal(parent, ..) starts at the leaf or typedef being compiled, so identityref
